@@ -3,6 +3,7 @@ import BqVerif.Proofs.QuickSpec
 import BqVerif.Proofs.PartitionBins
 import BqVerif.Proofs.Region
 import BqVerif.Proofs.RegionTopo
+import BqVerif.Proofs.RegionBridge
 /-!
 # C08 — partitioning regroups operations without changing the program
 
@@ -496,6 +497,13 @@ theorem C08_region_volume_dependency (r s : BqVerif.Region.Region) (hr : r.wf = 
     ∧ (r.dependency s = -1 ↔
         r.common s ≠ [] ∧ ∀ q ∈ r.common s, BqVerif.Region.Region.fShared s r q = false) :=
   ⟨BqVerif.Region.Region.volume_eq r hr, BqVerif.Region.Region.dependency_spec r s⟩
+
+/-- **Bridge to C04**: the cells the `fold` / `straighten` validators of C04 quantify over
+    (`BqVerif.Circ.Region.covers`, `Model/CircBlocks.lean`) are exactly the cells of the region
+    algebra, so `C08_region_*` speak about the same regions `validFold` and `Circ.opsIn` do. -/
+theorem C08_region_bridge (r : BqVerif.Region.Region) (hw : r.wf = true) (k q : Nat) :
+    BqVerif.Circ.Region.covers (BqVerif.Region.toCirc r) k q = r.hasPt k q :=
+  BqVerif.Region.covers_eq_hasPt r hw k q
 
 /-- non-vacuity: two blocks of a 3-qudit circuit, the second after the first on qudit 1 -/
 example :
